@@ -44,7 +44,46 @@ def run(tier):
     _e_closest(chk, tier)
     _e_refine(chk)
     _bcd_backend(chk)
+    _cd_options_chain(chk)
     return chk
+
+
+def _cd_options_chain(chk):
+    """The limits the backend applies are the ones of the call: the interface's create_problem and to_backend_inputs are
+    interpreted with symbolic options (search radius, delta-v limit, ballistic tolerance); the request handed to the backend
+    must carry exactly those three symbols (real _ConnectionProblem constructor, section extraction abstracted)."""
+    INTF = "hiten.algorithms.connections.interfaces"
+    mod, cls = ri.find_def(INTF, "_ManifoldConnectionInterface")
+    EPS, DV, BAL = sp.Symbol("EPS2D", positive=True), sp.Symbol("DV_TOL", positive=True), sp.Symbol("BAL_TOL", positive=True)
+    opts = SymObj(None, {"delta_v_tol": DV, "ballistic_tol": BAL, "eps2d": EPS, "n_workers": 1}, "options")
+    section = SymObj(None, {"section_axis": "x", "section_offset": R(4, 5), "plane_coords": ("y", "z")}, "section")
+    cfg = SymObj(None, {"section": section, "direction": None}, "config")
+    src, tgt = SymObj(None, {}, "source"), SymObj(None, {}, "target")
+    cap = {}
+
+    def request(ip_, a, k):
+        cap.update(k)
+        return SymObj(None, dict(k), "request")
+
+    ov = {"ConnectionsBackendRequest": request, "_BackendCall": lambda ip_, a, k: SymObj(None, dict(k), "call"),
+          "SynodicMapConfig": lambda ip_, a, k: SymObj(None, dict(k), "mapcfg"),
+          "to_numeric": lambda ip_, a, k: (sp.Symbol("P"), sp.Symbol("X"), sp.Symbol("I")),
+          "_apply_direction_correction": lambda ip_, a, k: a[-1] if a else None}
+    ip = Interp(overrides=ov)
+    intf = SymObj(ClassRef(mod, cls), {"_request_cache": {}, "_cache": {}}, "interface")
+    try:
+        problem = ip.apply(ip.getattr(intf, "create_problem"), [], {"domain_obj": (src, tgt), "config": cfg, "options": opts})
+        ip.apply(ip.getattr(intf, "to_backend_inputs"), [problem], {})
+    except OutsideFragment as exc:
+        raise AnalysisError(f"connection interface outside fragment: {exc}")
+    chk.count("functions partially evaluated", 2)
+    if not cap:
+        raise AnalysisError("anchor: to_backend_inputs no longer builds a ConnectionsBackendRequest")
+    for slot, want, what in (("eps", EPS, "search radius"), ("dv_tol", DV, "delta-v limit"), ("bal_tol", BAL, "ballistic tolerance")):
+        got = cap.get(slot)
+        chk.check(got is not None and S(got) == want, "C19.c-options", f"{INTF}::_ManifoldConnectionInterface[{slot}]",
+                  f"the request's {what} is {got} instead of the option of the call ({want}): connections are filtered / labelled "
+                  f"with a limit the caller did not ask for", sample=f"request.{slot} = options.{want}")
 
 
 # ------------------------------------------------------------------------------------------------ a
